@@ -244,6 +244,48 @@ impl<I: Index> SimpleTermIndex<I> {
     }
 }
 
+#[cfg(sophia_verif)]
+impl<I: Index> SimpleTermIndex<I> {
+    /// Verification hook: (address, length, owned?) of every string held
+    /// by the keys of `t2i` (first component) and by the entries of `i2t` (second component),
+    /// quoted triples being flattened.
+    /// It lets a harness check that every key owns its strings,
+    /// that the strings of distinct live indexes never overlap,
+    /// and that every borrowed string of `i2t` lies inside a string of a key of the same index.
+    #[allow(clippy::type_complexity)]
+    pub fn verif_strings(&self) -> (Vec<(usize, usize, bool)>, Vec<(usize, usize, bool)>) {
+        fn one(owned: bool, x: &str, out: &mut Vec<(usize, usize, bool)>) {
+            out.push((x.as_ptr() as usize, x.len(), owned));
+        }
+        fn collect(t: &SimpleTerm<'_>, out: &mut Vec<(usize, usize, bool)>) {
+            use SimpleTerm::*;
+            match t {
+                Iri(x) => one(x.clone().unwrap().is_owned(), x.as_str(), out),
+                BlankNode(x) => one(x.clone().unwrap().is_owned(), x.as_str(), out),
+                Variable(x) => one(x.clone().unwrap().is_owned(), x.as_str(), out),
+                LiteralDatatype(l, d) => {
+                    one(l.is_owned(), l, out);
+                    one(d.clone().unwrap().is_owned(), d.as_str(), out);
+                }
+                LiteralLanguage(l, t) => {
+                    one(l.is_owned(), l, out);
+                    one(t.clone().unwrap().is_owned(), t.as_str(), out);
+                }
+                Triple(x) => x.iter().for_each(|c| collect(c, out)),
+            }
+        }
+        let mut keys = vec![];
+        for k in self.t2i.keys() {
+            collect(k, &mut keys);
+        }
+        let mut entries = vec![];
+        for t in &self.i2t {
+            collect(t, &mut entries);
+        }
+        (keys, entries)
+    }
+}
+
 impl<I: Index> GraphNameIndex for SimpleTermIndex<I> {
     fn get_default_graph_index(&self) -> Self::Index {
         Self::Index::MAX
